@@ -24,6 +24,24 @@ type av1Obu struct {
 	hasSize   bool
 	reserved1 bool
 	payload   []byte
+	// width in bytes of the obu_size field: 0 = minimal (what every encoder that knows the length up
+	// front writes), w > 0 = exactly w LEB128 bytes, padded with 0x80 groups (AV1 spec 4.10.5 allows
+	// up to 8; encoders that reserve the field before the OBU length is known write a fixed width)
+	szw int
+}
+
+// av1PadLeb: n in exactly w LEB128 bytes (mirrors Spec.Av1Rtp.padLeb, also where n does not fit).
+func av1PadLeb(n uint64, w int) []byte {
+	out := make([]byte, 0, w)
+	for i := 0; i < w; i++ {
+		b := byte(n % 128)
+		n /= 128
+		if i < w-1 {
+			b += 128
+		}
+		out = append(out, b)
+	}
+	return out
 }
 
 func av1OwnLeb(n uint64) []byte {
@@ -54,7 +72,11 @@ func (o *av1Obu) wire() []byte {
 		out = append(out, o.ext[0]*32+o.ext[1]*8+o.ext[2])
 	}
 	if o.hasSize {
-		out = append(out, av1OwnLeb(uint64(len(o.payload)))...)
+		if o.szw > 0 {
+			out = append(out, av1PadLeb(uint64(len(o.payload)), o.szw)...)
+		} else {
+			out = append(out, av1OwnLeb(uint64(len(o.payload)))...)
+		}
 	}
 	return append(out, o.payload...)
 }
@@ -85,6 +107,36 @@ func av1WriteObus(t *Toks, os []av1Obu) {
 	}
 }
 
+// av1WriteObusW: every OBU followed by the width of its size field (c13.rt)
+func av1WriteObusW(t *Toks, os []av1Obu) {
+	t.Nat(len(os))
+	for i := range os {
+		av1WriteHdr(t, os[i].typ, os[i].ext, os[i].hasSize, os[i].reserved1)
+		t.Bytes(os[i].payload)
+		t.Nat(os[i].szw)
+	}
+}
+
+// av1MinWidth: bytes of the minimal LEB128 encoding of n.
+func av1MinWidth(n int) int { return len(av1OwnLeb(uint64(n))) }
+
+// av1PadWidths gives a share of the OBUs that carry a size field a padded one: any width from the
+// minimal one up to 8 (the widest the AV1 specification allows), the fixed widths encoders reserve
+// (2, 4, 8) more often.  `all` pads every size field.
+func av1PadWidths(r *Rand, os []av1Obu, all bool) {
+	for i := range os {
+		if !os[i].hasSize || !(all || r.Chance(1, 2)) {
+			continue
+		}
+		lo := av1MinWidth(len(os[i].payload))
+		w := r.Pick(2, 4, 8, r.Range(lo, 8), r.Range(lo, 8), lo+1)
+		if w < lo {
+			w = lo
+		}
+		os[i].szw = w
+	}
+}
+
 func av1WriteLibHdr(t *Toks, h *obu.Header, err error) {
 	if err != nil || h == nil {
 		t.Err("other")
@@ -109,7 +161,34 @@ type av1View struct {
 }
 
 // observeAV1Rt runs Payload and both receive paths and writes RtObs.
-func observeAV1Rt(o *Toks, mtu uint16, stream []byte) (payloads [][]byte, panicked bool) {
+func observeAV1Rt(c *Case, mtu uint16, stream []byte) (payloads [][]byte, panicked bool) {
+	o := &c.O
+	// How the receiver holds the packets.  A third of the cases give every packet its own slice that
+	// is never touched again; the others read every packet into ONE receive buffer (a window of a
+	// larger array, as a network read loop does) that the next packet overwrites, half of those also
+	// wipe it once the results of the call have been taken out.  What AV1Packet shows and what
+	// ReadFrames / AV1Depacketizer return for a packet is copied out before the buffer is reused (they
+	// may be views of the packet); what the assembler / depacketizer KEEP for later packets must be
+	// their own, so the OBUs that come out must not depend on the mode.
+	rxMode := c.R.Intn(3)
+	var rxA, rxD []byte
+	if rxMode != 0 {
+		rxA, rxD = make([]byte, 0, 1<<16), make([]byte, 0, 1<<16)
+		c.Tag("rx=one-reused-buffer")
+	}
+	recv := func(rx []byte, p []byte) []byte {
+		if rxMode == 0 {
+			return cloneBytes(p)
+		}
+		return append(rx[:0], p...)
+	}
+	done := func(b []byte) {
+		if rxMode == 2 {
+			for i := range b {
+				b[i] = 0xEE
+			}
+		}
+	}
 	var views []av1View
 	var frames [][][]byte
 	type dres struct {
@@ -127,7 +206,8 @@ func observeAV1Rt(o *Toks, mtu uint16, stream []byte) (payloads [][]byte, panick
 		dep := &codecs.AV1Depacketizer{}
 		for _, p := range payloads {
 			pkt := &codecs.AV1Packet{}
-			_, err := pkt.Unmarshal(cloneBytes(p))
+			in := recv(rxA, p)
+			_, err := pkt.Unmarshal(in)
 			v := av1View{err: err != nil}
 			var fr [][]byte
 			if err == nil {
@@ -140,8 +220,11 @@ func observeAV1Rt(o *Toks, mtu uint16, stream []byte) (payloads [][]byte, panick
 			}
 			views = append(views, v)
 			frames = append(frames, fr)
-			out, derr := dep.Unmarshal(cloneBytes(p))
+			done(in)
+			din := recv(rxD, p)
+			out, derr := dep.Unmarshal(din)
 			deps = append(deps, dres{derr != nil, cloneBytes(out)})
+			done(din)
 		}
 	})
 	if panicked {
@@ -175,9 +258,15 @@ func observeAV1Rt(o *Toks, mtu uint16, stream []byte) (payloads [][]byte, panick
 func av1RtCase(c *Case, mtu int, os []av1Obu) {
 	stream := av1Serialise(os)
 	c.I.Nat(mtu)
-	av1WriteObus(&c.I, os)
+	av1WriteObusW(&c.I, os)
 	c.I.Bytes(stream)
-	payloads, _ := observeAV1Rt(&c.O, uint16(mtu), stream)
+	payloads, _ := observeAV1Rt(c, uint16(mtu), stream)
+	for i := range os {
+		if os[i].hasSize && os[i].szw > av1MinWidth(len(os[i].payload)) {
+			c.Tag("padded-size-field")
+			break
+		}
+	}
 	if len(os) == 0 || len(payloads) == 0 {
 		c.Trivial()
 	}
@@ -417,11 +506,57 @@ func genAV1Rt(x *Ctx) {
 			av1RtCase(c, mtu, os)
 		})
 	}
-	// outside the hypotheses (no-panic and correspondence only): MTU 0/1, size-less OBU inside
-	for i, n := 0, x.N(600, 20000); i < n; i++ {
+	// size fields that are not minimally encoded (AV1 spec 4.10.5: up to 8 bytes for any value).
+	// grid: one or two OBUs, every width 1..8 that holds the size, sizes around the LEB128 boundaries
+	for _, n := range []int{0, 1, 5, 126, 127, 128, 129, 300, 16383, 16384} {
+		for w := 1; w <= 8; w++ {
+			if w < av1MinWidth(n) {
+				continue
+			}
+			for v := 0; v < 2; v++ {
+				x.Case(func(c *Case) {
+					mtu := c.R.Pick(c.R.Range(2, 12), c.R.Range(13, 64), 200, 1200)
+					o := av1Obu{typ: 6, hasSize: true, payload: c.R.Bytes(n), szw: w}
+					if c.R.Bool() {
+						o.ext = &[3]byte{byte(c.R.Intn(8)), byte(c.R.Intn(4)), 0}
+					}
+					os := []av1Obu{o}
+					if v == 1 {
+						os = append(os, av1Obu{typ: byte(c.R.Pick(6, 3, 2, 8)), hasSize: c.R.Bool(), payload: c.R.Bytes(c.R.Range(0, 9))})
+						if os[1].hasSize && c.R.Bool() {
+							os[1].szw = c.R.Range(1, 8)
+						}
+					}
+					c.Tag("grid-padded-size-field")
+					av1RtCase(c, mtu, os)
+				})
+			}
+		}
+	}
+	// random sequences, a share of (or all) the size fields padded
+	for i, n := 0, x.N(4000, 200000); i < n; i++ {
+		x.Case(func(c *Case) {
+			mtu := c.R.Pick(c.R.Range(2, 8), c.R.Range(2, 64), c.R.Range(2, 64), c.R.Range(100, 300), 200, 1200)
+			os := av1RandObus(c.R, mtu, 8, 4000, false)
+			av1PadWidths(c.R, os, c.R.Chance(1, 4))
+			av1RtCase(c, mtu, os)
+		})
+	}
+	// outside the hypotheses (no-panic and correspondence only): MTU 0/1, size-less OBU inside, size
+	// fields wider than 8 bytes (ReadLeb128's 64-bit accumulator drops the first bytes) or too narrow
+	// for the value (the field then says a smaller size)
+	for i, n := 0, x.N(900, 30000); i < n; i++ {
 		x.Case(func(c *Case) {
 			mtu := c.R.Pick(0, 1, c.R.Range(2, 64))
 			os := av1RandObus(c.R, mtu+2, 5, 300, true)
+			if i%3 == 2 {
+				av1PadWidths(c.R, os, false)
+				for j := range os {
+					if os[j].hasSize && c.R.Chance(1, 3) {
+						os[j].szw = c.R.Pick(1, 9, 10, 12)
+					}
+				}
+			}
 			c.Tag("non-wf")
 			av1RtCase(c, mtu, os)
 		})
